@@ -29,6 +29,16 @@ def ofHexGo (a : ByteArray) : Nat → Bytes → Option Bytes
     | some x, some y => ofHexGo a i (UInt8.ofNat (x * 16 + y) :: acc)
     | _, _ => none
 
+def hexDigitU8 (n : UInt8) : UInt8 := if n < 10 then 48 + n else 87 + n
+
+/-- `toHex` through a byte array (megabyte outputs). -/
+def toHexFast (bs : Bytes) : String :=
+  if bs.isEmpty then "-"
+  else
+    let arr := bs.foldl (fun (a : ByteArray) (b : UInt8) => (a.push (hexDigitU8 (b >>> 4))).push (hexDigitU8 (b &&& 15)))
+      (ByteArray.emptyWithCapacity (2 * bs.length))
+    String.fromUTF8! arr
+
 def ofHexFast (s : String) : Option Bytes :=
   if s == "-" then some []
   else
@@ -37,7 +47,7 @@ def ofHexFast (s : String) : Option Bytes :=
 
 def showOut {α : Type} (o : Out (α × Bytes)) (f : α → String) : String :=
   match o with
-  | .ok (v, r) => "ok " ++ f v ++ " " ++ toHex r
+  | .ok (v, r) => "ok " ++ f v ++ " " ++ toHexFast r
   | .err e => "err " ++ e.tag
   | .panic => "panic"
 
@@ -74,15 +84,15 @@ def decKind (k : String) (b : Bytes) : Option (Out (String × Bytes)) :=
   | "i64" => some (m (getInt64P b) toString)
   | "f64" => some (m (getU64P b) toString)
   | "bool" => some (m (getBoolP b) (fun x => if x then "true" else "false"))
-  | "i128" => some (m (getNP int128Size b) toHex)
-  | "i256" => some (m (getNP int256Size b) toHex)
-  | "bytes" => some (m (getBytesP b) toHex)
-  | "str" => some (m (getBytesP b) toHex)
+  | "i128" => some (m (getNP int128Size b) toHexFast)
+  | "i256" => some (m (getNP int256Size b) toHexFast)
+  | "bytes" => some (m (getBytesP b) toHexFast)
+  | "str" => some (m (getBytesP b) toHexFast)
   | "vec" => some (m (getVectorHeaderP b) toString)
   | _ => none
 
 def decSeq : List String → Bytes → List String → Option String
-  | [], b, acc => some (" ".intercalate (acc.reverse ++ ["|", toHex b]))
+  | [], b, acc => some (" ".intercalate (acc.reverse ++ ["|", toHexFast b]))
   | k :: ks, b, acc =>
     match decKind k b with
     | none => none
@@ -93,7 +103,7 @@ def decSeq : List String → Bytes → List String → Option String
 def handle (line : String) : String :=
   match words line with
   | ["enc", k, v] => match encKind k v with
-    | some b => toHex b
+    | some b => toHexFast b
     | none => "bad-op"
   | ["dec", k, h] => match ofHexFast h with
     | some b => match decKind k b with
@@ -111,17 +121,17 @@ def handle (line : String) : String :=
     | none => "bad-op"
   | ["consume", id, h] => match id.toNat?, ofHexFast h with
     | some id, some b => match consumeIDP id b with
-      | .ok (_, r) => "ok " ++ toHex r
+      | .ok (_, r) => "ok " ++ toHexFast r
       | .err e => "err " ++ e.tag
       | .panic => "panic"
     | _, _ => "bad-op"
   | ["getn", n, h] => match n.toNat?, ofHexFast h with
-    | some n, some b => showOut (getNP n b) toHex
+    | some n, some b => showOut (getNP n b) toHexFast
     | _, _ => "bad-op"
   | ["hdr", l] => match l.toNat? with
     | some n =>
       let hd := bytesHeader n
-      toHex hd ++ " " ++ toString (bytesPad n) ++ " " ++ toString (hd.length + n + bytesPad n)
+      toHexFast hd ++ " " ++ toString (bytesPad n) ++ " " ++ toString (hd.length + n + bytesPad n)
     | none => "bad-op"
   | _ => "bad-op"
 
